@@ -16,6 +16,51 @@ CLAIMED = {
    note=TB + "Modelled, not verified: the C++ bit operations are written arithmetically in the model (stated in ScriptNum.v); the tie is the exhaustive/stratified differential run.",
    technique="Coq proof (induction on byte lists, lia/nia) + exhaustive differential correspondence against extracted model",
    ref="DESIGN.md §2 C18"),
+ "C01": dict(
+   text="Theorems (Properties/C01.v, unbounded over stacks/operands): every numeric opcode's expression - GENERATED from the C++ switch "
+        "statements (Gen/NumOps.v) - equals its arithmetic function (OP_SUB operand order, OP_WITHIN bounds, MIN/MAX, comparisons); every "
+        "stack opcode body realises the prescribed stack picture incl. OP_PICK/OP_ROLL for every index; CastToBool, CheckMinimalPush and the "
+        "(size, first-false) condition stack equal their reference definitions. NOT proved: one monolithic step-refinement against an "
+        "independent reference interpreter (C01_step_refines) - the order of checks inside a step is tied to the code by generated sites and "
+        "by step-by-step full-state correspondence: all 1-op scripts over the 256-byte alphabet x stacks x flag sets x 3 versions (2-op "
+        "thorough), grammar-directed long scripts, numeric boundary grid, flag probes.",
+   note=TB + "Hand-modelled (Interp.v/Session.v) and tied by differential execution only: control flow of StepScript, push handling, hash opcodes (Gallina SHA-256/RIPEMD-160/SHA-1 vs the C++ by execution). Signature opcodes are outside C01 (see C02).",
+   technique="Coq proofs per opcode family over generated expressions + full-state differential correspondence",
+   ref="DESIGN.md §2 C01"),
+ "C04": dict(
+   text="Theorem C04_rewind_undoes_step: for every session state and every successful step, an accepted rewind returns EXACTLY the previous "
+        "state (all components incl. condition stack, pbegincodehash, execdata, opcode_pos, history), hence any step/rewind interleaving "
+        "equals the net number of steps; rewinding from the end state only clears the end marker; refused rewinds produce no state. Uses "
+        "C04_step_frame (a step never changes the script / error slot) proved over the whole opcode switch. Tie: complete history trees "
+        "(depth 7; 9 thorough) + random walks vs the model after every command, plus the impl-only relation history == fresh run of net steps.",
+   note=TB + "The snapshot vectors are modelled as one list of records (all pushed/popped together in the C++).",
+   technique="Coq proof (rewind o step = id, frame lemma over all opcodes) + history-tree differential correspondence",
+   ref="DESIGN.md §2 C04"),
+ "C10": dict(
+   text="Theorems pin the GENERATED comparison operator and constant of every limit check (Gen/Sites.v, Gen/Consts.v, regenerated from the "
+        "source each run) to the consensus bounds: 520 / 201 / 1000 / 10000 / 20, counted-op threshold, tapscript exemption from the script "
+        "size, 4/5-byte operand sizes and their integer ranges; step-level: over-long push always PUSH_SIZE, a successful step leaves <= 1000 "
+        "items, the 202nd counted op fails with OP_COUNT. A '>' turned '>=' or a changed constant breaks these proofs. Tie: boundary scripts "
+        "at L-1/L/L+1 per limit and route x 3 versions.",
+   note=TB + "Exactness in the direction 'no other operation fails with that error' is covered by correspondence, not by a theorem.",
+   technique="Coq proofs over translator-generated limit sites + boundary differential correspondence",
+   ref="DESIGN.md §2 C10"),
+ "C16": dict(
+   text="Theorems: exec leaves pc, script, listing position, history and session flags untouched; the step taken on behalf of exec equals the "
+        "script's own step on the same environment for every operation except OP_CODESEPARATOR (which must not move pbegincodehash into the "
+        "temporary script); exec = iteration of that step, stopping at the first failure. Tie: exec after random session prefixes, full state dump.",
+   note=TB + "Token parser of Instance::eval modelled in Value.exec_compile and tied by correspondence (atoi re-print rule, hex, names).",
+   technique="Coq proof (frame + step equality) + differential correspondence after session prefixes",
+   ref="DESIGN.md §2 C16"),
+ "C17": dict(
+   text="Theorems per opcode (all stacks/operands): CAT, SUBSTR, LEFT, RIGHT, INVERT, AND/OR/XOR, 2MUL, 2DIV, MUL, DIV, MOD, LSHIFT, RSHIFT compute "
+        "append / substrings / bytewise ops / 2n / n quot 2 / product / C quotient and remainder / a*2^b / floor(a/2^b), invalid operands "
+        "(zero divisor, shift count outside 0..63, overflow beyond +-(2^63-1), offsets out of range, unequal lengths) are script errors; no "
+        "outcome is a crash; without the option the gate fails them as DISABLED_OPCODE before the executed/unexecuted test (gate list and its "
+        "position generated from the source). Tie: exhaustive over the boundary operand set x with/without -z x executed/unexecuted.",
+   note=TB + "The repository's pre-existing defects here (XOR no-op, 2DIV assert, DIV/MOD SIGFPE, UB shifts) were repaired by fix: commits; see known_findings.json.",
+   technique="Coq proofs per opcode + exhaustive differential correspondence over the operand set",
+   ref="DESIGN.md §2 C17"),
 }
 
 NOT_YET = {}
